@@ -277,8 +277,19 @@ func (c *channel) receiveSession(ctx context.Context) (*Session, error) {
 	state := c.State()
 
 	switch state {
-	case SessionStateFinished:
-		return nil, fmt.Errorf("receive session: cannot do in the %v state", state)
+	case SessionStateFinished, SessionStateFailed:
+		// On the client side, the receiver goroutine stores the terminal state right after
+		// queueing the session envelope that carried it, which may not have been consumed yet.
+		select {
+		case s, ok := <-c.inSesChan:
+			if ok {
+				return s, nil
+			}
+		default:
+		}
+		if state == SessionStateFinished {
+			return nil, fmt.Errorf("receive session: cannot do in the %v state", state)
+		}
 	case SessionStateEstablished:
 		select {
 		case <-ctx.Done():
